@@ -67,6 +67,13 @@ func (t *Trace) Flush() {
 	t.buf = t.buf[:0]
 }
 
+// Drop discards the buffered events of an unfinished segment.
+func (t *Trace) Drop() {
+	t.mu.Lock()
+	defer t.mu.Unlock()
+	t.buf = t.buf[:0]
+}
+
 func (t *Trace) Len() int {
 	t.mu.Lock()
 	defer t.mu.Unlock()
